@@ -176,6 +176,23 @@ Theorem c19_metanl_refuted :
 Proof. exact metanl_witness. Qed.
 Print Assumptions c19_metanl_refuted.
 
+(* clear() followed by an update brings the cleared entries back *)
+Theorem c19_clear_refuted :
+  option_map e_val (lookup2 (c_view (run q_only_clear w_clear_ops (empty_config "cfg"))) "sa" "k1") = Some "v" /\
+  lookup2 (c_view (run all_off w_clear_ops (empty_config "cfg"))) "sa" "k1" = None.
+Proof. exact clear_witness. Qed.
+Print Assumptions c19_clear_refuted.
+
+(* variables are part of the configuration's state: replacement uses the variables known NOW, for every entry
+   regardless of when it was created; clear_vars forgets all of them *)
+Theorem replace_uses_current_vars :
+  (forall q c c' sn key d extra,
+     lookup2 (c_view c) sn key = lookup2 (c_view c') sn key -> c_vars c = c_vars c' ->
+     answer q c (QReplaced sn key d extra) = answer q c' (QReplaced sn key d extra)) /\
+  (forall q c, c_vars (fst (apply_op q c OClearVars)) = []).
+Proof. split; [exact replaced_uses_current_vars|exact clear_vars_forgets]. Qed.
+Print Assumptions replace_uses_current_vars.
+
 (* ---- non-vacuity *)
 
 (* two profiles define sa.k1; the first listed one wins; after re-prioritising the other one wins *)
